@@ -242,6 +242,26 @@ def catalogue():
         add('mutual_info.' + nm, gen)
 
     def gen(t):
+        A, k = g_features(t)
+        cut = t.irange(1, len(A)) if len(A) > 1 else 1
+        Xs = [A[:cut], A[cut:]] if cut < len(A) else [A]
+        return mi.mi_matrix_serial, [Xs, Xs, np.full(A.shape[1], k), np.full(A.shape[1], k), t.flag()], set()
+    add('mutual_info.mi_matrix_serial', gen)
+
+    def gen(t):
+        M_, k = g_mimat(t)
+        G = np.abs(np.asarray(M_, dtype=float))
+        G = (G + G.T) / 2 / (1.0 + G.sum())          # symmetric, spectral radius below one: the deconvolution is well defined
+        return mi.deconvolute_network, [G], set()
+    add('mutual_info.deconvolute_network', gen)
+
+    def gen(t):
+        rs = np.random.RandomState(t.draw(2 ** 31 - 1))
+        u = rs.rand(t.irange(1, 8)) * 10
+        return entropy.energy_to_probability, [u] + ([t.choice((0.6, 2.479))] if t.flag() else []), set()
+    add('entropy.energy_to_probability', gen)
+
+    def gen(t):
         p = g_prob(t)
         if t.flag(1, 4):
             p = np.outer(p, g_prob(t))
@@ -322,6 +342,18 @@ def catalogue():
         return (lambda A, lags, meth, nt, sw: timescales.implied_timescales(A, lags, meth, n_times=nt, sliding_window=sw)), \
             [A, [1, 2][:t.irange(1, 2)], meth, t.irange(1, 2), t.flag()], set()
     add('timescales.implied_timescales', gen)
+
+    def gen(t):
+        from enspara.msm import MSM
+        A, ns = g_assigns(t)
+
+        def fit(A, lag, meth, trim, mx):
+            m = MSM(lag_time=lag, method=meth, trim=trim, max_n_states=mx)
+            m.fit(A)
+            mp = sorted((int(a), int(b)) for a, b in m.mapping_.to_original.items())
+            return [m.tcounts_, m.tprobs_, m.eq_probs_, np.array(mp)]
+        return fit, [A, t.irange(1, 2), t.choice(('normalize', 'transpose', builders.normalize)), t.flag(1, 3), None if t.flag() else ns], set()
+    add('msm.MSM.fit', gen)
 
     def gen(t):
         T = as_container(t, g_T(t), ('dense', 'csr'))
